@@ -1,7 +1,10 @@
 //! Exhaustive stand-in for C15 (labelled: enumeration of the compiled code, not a deductive proof):
 //! for EVERY one of the 2^32 tags, compare the real `StandardDataDictionary::by_tag` with the
 //! precedence of the property statement evaluated over the published table, which is read
-//! independently from the *text* of dictionary-std/src/tags.rs (constants + ENTRIES rows).
+//! independently from the *text* of dictionary-std/src/tags.rs (constants + ENTRIES rows). Then: every
+//! keyword of the table resolves (by_name / by_expr / parse_tag) to an entry with that keyword and tag, near-miss
+//! spellings resolve to nothing, the three text forms of a tag resolve to its entry, and every row of the SOP
+//! class table (text of uids.rs) is found by UID and by keyword as the same entry.
 use dicom_core::dictionary::{DataDictionary, DataDictionaryEntry, TagRange};
 use dicom_core::Tag;
 use dicom_dictionary_std::StandardDataDictionary;
@@ -108,5 +111,64 @@ fn main() {
         }
     });
     for l in shown.lock().unwrap().iter() { println!("{}", l); }
-    println!("EXHAUSTIVE unit=C15.exhaustive cases=4294967296 table_rows={} mismatches={}", table.len(), mismatches.load(Ordering::Relaxed));
+    // 4. keywords: every row's keyword resolves to an entry with that keyword and (one of) the tag(s) published under it;
+    //    by_expr / parse_tag agree for the keyword and for the three text forms of the tag
+    let mut extra_cases = 0u64;
+    let mut extra_bad = 0u64;
+    let mut complain = |msg: String, extra_bad: &mut u64| { *extra_bad += 1; if *extra_bad <= 6 { println!("WITNESS unit=C15.exhaustive {}", msg); } };
+    let dict = StandardDataDictionary;
+    let mut by_alias: HashMap<&str, Vec<(Kind, (u16, u16))>> = HashMap::new();
+    for (k, t, a) in &table { by_alias.entry(a.as_str()).or_default().push((*k, *t)); }
+    for (alias, rows) in &by_alias {
+        extra_cases += 1;
+        match dict.by_name(alias) {
+            Some(en) => {
+                let t = en.tag_range().inner();
+                if en.alias() != *alias || !rows.iter().any(|(_, rt)| *rt == (t.0, t.1)) { complain(format!("by_name({:?}) = {:?} {}, table has {:?}", alias, en.alias(), t, rows), &mut extra_bad); }
+                if dict.by_expr(alias).map(|e| (e.alias(), e.tag_range().inner())) != Some((en.alias(), t)) { complain(format!("by_expr({:?}) disagrees with by_name", alias), &mut extra_bad); }
+                if dict.parse_tag(alias) != Some(en.tag()) { complain(format!("parse_tag({:?}) = {:?}, by_name gives {}", alias, dict.parse_tag(alias), en.tag()), &mut extra_bad); }
+            }
+            None => complain(format!("by_name({:?}) finds nothing", alias), &mut extra_bad),
+        }
+        for variant in [alias.to_lowercase(), alias.to_uppercase(), format!("{} ", alias), format!(" {}", alias)] {
+            if variant != *alias && !by_alias.contains_key(variant.as_str()) && dict.by_name(&variant).is_some() { complain(format!("by_name({:?}) finds an entry although no keyword is spelled like that", variant), &mut extra_bad); }
+        }
+    }
+    for (k, t, alias) in table.iter().filter(|r| r.0 == Kind::Single).step_by(7) {
+        extra_cases += 1;
+        let _ = k;
+        for text in [format!("({:04X},{:04X})", t.0, t.1), format!("{:04x},{:04x}", t.0, t.1), format!("{:04X}{:04X}", t.0, t.1)] {
+            match dict.by_expr(&text) { Some(e) if e.alias() == alias.as_str() => {} other => complain(format!("by_expr({:?}) = {:?}, expected {}", text, other.map(|e| e.alias()), alias), &mut extra_bad) }
+            if dict.parse_tag(&text) != Some(Tag(t.0, t.1)) { complain(format!("parse_tag({:?}) = {:?}", text, dict.parse_tag(&text)), &mut extra_bad); }
+        }
+    }
+    // 5. SOP class dictionary: every row of SOP_CLASSES in the text of uids.rs is found by UID and by keyword, as the same entry
+    {
+        use dicom_core::dictionary::{UidDictionary, UidDictionaryEntry};
+        use dicom_dictionary_std::StandardSopClassDictionary;
+        let utext = std::fs::read_to_string("/repo/dictionary-std/src/uids.rs").expect("uids.rs");
+        let a = utext.find("const SOP_CLASSES").expect("SOP_CLASSES");
+        let b = utext[a..].find("];").unwrap() + a;
+        let mut rows = 0;
+        let mut uids_seen: HashMap<String, String> = HashMap::new();
+        for ln in utext[a..b].lines() {
+            let ln = ln.trim();
+            if !ln.starts_with("E::new(") { continue; }
+            let parts: Vec<&str> = ln.split('"').collect();
+            if parts.len() < 6 { continue; }
+            let (uid, name, kw) = (parts[1], parts[3], parts[5]);
+            rows += 1;
+            extra_cases += 1;
+            if let Some(prev) = uids_seen.insert(uid.to_string(), kw.to_string()) { complain(format!("SOP class UID {} published twice ({} and {})", uid, prev, kw), &mut extra_bad); }
+            let d = StandardSopClassDictionary;
+            match (d.by_uid(uid), d.by_keyword(kw)) {
+                (Some(x), Some(y)) => {
+                    if x.uid() != uid || x.alias() != kw || x.name() != name || y.uid() != uid || y.alias() != kw { complain(format!("SOP class {} / {}: by_uid gives ({}, {}), by_keyword gives ({}, {})", uid, kw, x.uid(), x.alias(), y.uid(), y.alias()), &mut extra_bad); }
+                }
+                (x, y) => complain(format!("SOP class {} / {}: by_uid found={} by_keyword found={}", uid, kw, x.is_some(), y.is_some()), &mut extra_bad),
+            }
+        }
+        if rows < 100 { complain(format!("only {} SOP class rows parsed from uids.rs", rows), &mut extra_bad); }
+    }
+    println!("EXHAUSTIVE unit=C15.exhaustive cases={} table_rows={} mismatches={}", 4294967296u64 + extra_cases, table.len(), mismatches.load(Ordering::Relaxed) + extra_bad);
 }
